@@ -38,6 +38,9 @@ type thread struct {
 	wantWrite bool
 	pending   bool // counted in blockedOn.pendW
 	vc        vclock
+	// waiting for a condition other than a lock (sync.WaitGroup.Wait)
+	waitFn   func() bool
+	waitWhat string
 }
 
 type accessRec struct {
@@ -96,7 +99,20 @@ func (s *scheduler) runnable(t *thread) bool {
 	if t.blockedOn != nil {
 		return canAcquire(t.blockedOn, t.id, t.wantWrite)
 	}
+	if t.waitFn != nil {
+		return t.waitFn()
+	}
 	return true
+}
+
+// waitUntil parks the running thread until cond holds (scheduling points in between).
+func (s *scheduler) waitUntil(cond func() bool, what string) {
+	t := s.curT()
+	for !cond() {
+		t.waitFn, t.waitWhat = cond, what
+		s.schedule(t)
+	}
+	t.waitFn, t.waitWhat = nil, ""
 }
 
 func (s *scheduler) candidates() []*thread {
@@ -144,6 +160,8 @@ func (s *scheduler) describeBlocked() string {
 			}
 			parts = append(parts, fmt.Sprintf("thread %d waits for %s of %s (writer=%d readers=%d pendingWriters=%d)",
 				t.id, m, t.blockedOn.name, t.blockedOn.writer, t.blockedOn.totalReaders(), t.blockedOn.pendW))
+		} else if t.waitFn != nil {
+			parts = append(parts, fmt.Sprintf("thread %d waits for %s", t.id, t.waitWhat))
 		} else {
 			parts = append(parts, fmt.Sprintf("thread %d runnable", t.id))
 		}
